@@ -9,10 +9,10 @@ import (
 
 	"github.com/Comcast/sheens/match"
 	"pgregory.net/rapid"
-	"verif/internal/ev"
-	"verif/internal/jsongen"
-	"verif/internal/patgen"
-	"verif/internal/refmatch"
+	"verif/lib/ev"
+	"verif/lib/jsongen"
+	"verif/lib/patgen"
+	"verif/lib/refmatch"
 )
 
 // ---------------------------------------------------------------- C03
